@@ -127,21 +127,27 @@ def make_table(n, k, q, seed, style):
 
 
 def gen_data(rng, n, p, kind):
-    """Small data sets: noise plus (kind) none / one jump / a bump; rounded to 2 decimals so that inputs stay readable."""
-    X = rng.normal(size=(n, p))
-    if kind == "jump" and n >= 2:
-        t = int(rng.integers(1, n))
-        X[t:] += rng.choice([-6.0, 4.0, 8.0])
-    elif kind == "bump" and n >= 3:
-        a = int(rng.integers(1, n - 1))
-        b = int(rng.integers(a + 1, n))
-        X[a:b] += rng.choice([-7.0, 5.0, 9.0])
-    elif kind == "two" and n >= 3:
-        a = int(rng.integers(1, n - 1))
-        b = int(rng.integers(a + 1, n))
-        X[a:] += 6.0
-        X[b:] -= 9.0
-    return np.round(X, 2)
+    """Small data sets: noise plus (kind) none / one jump / two jumps / a bump; rounded to 2 decimals so that inputs stay
+    readable.  Values within a column are pairwise distinct: a segment of identical values is the floored zero-variance
+    corner of the Gaussian costs, which belongs to C01, not to the detectors."""
+    for _ in range(100):
+        X = rng.normal(size=(n, p))
+        if kind == "jump" and n >= 2:
+            t = int(rng.integers(1, n))
+            X[t:] += rng.choice([-6.0, 4.0, 8.0])
+        elif kind == "bump" and n >= 3:
+            a = int(rng.integers(1, n - 1))
+            b = int(rng.integers(a + 1, n))
+            X[a:b] += rng.choice([-7.0, 5.0, 9.0])
+        elif kind == "two" and n >= 3:
+            a = int(rng.integers(1, n - 1))
+            b = int(rng.integers(a + 1, n))
+            X[a:] += 6.0
+            X[b:] -= 9.0
+        X = np.round(X, 2)
+        if all(len(set(X[:, j].tolist())) == n for j in range(p)):
+            break
+    return X
 
 
 def _cusum_agg(X, s, k, e):
@@ -280,10 +286,29 @@ class NonTermination(Exception):
     """Raised by the watchdog of `attempt` when a call into the real code does not return in time."""
 
 
-def attempt(fn, seconds=10.0):
+class Abort(BaseException):
+    """Raised by `attempt` once more than MAX_HANGS calls did not terminate: the driver stops enumerating and reports."""
+
+
+MAX_HANGS = 3
+_hangs = [0]
+
+
+def reset_hangs():
+    _hangs[0] = 0
+
+
+def permitted(err):
+    """Documented outcome of the multivariate Gaussian cost on degenerate data (brief: permitted where the statement allows)."""
+    return isinstance(err, RuntimeError) and "positive definite" in str(err)
+
+
+def attempt(fn, seconds=5.0):
     """(value, None) or (None, exception).  A watchdog (main thread only) turns a call that does not return within
     `seconds` into NonTermination instead of hanging the driver."""
     guard = threading.current_thread() is threading.main_thread() and hasattr(signal, "setitimer")
+    if _hangs[0] > MAX_HANGS:
+        raise Abort()
     if guard:
         def on_alarm(signum, frame):
             raise NonTermination(f"no result after {seconds} s")
@@ -292,6 +317,8 @@ def attempt(fn, seconds=10.0):
     try:
         return fn(), None
     except Exception as e:          # noqa: BLE001 - the drivers classify the exception
+        if isinstance(e, NonTermination):
+            _hangs[0] += 1
         return None, e
     finally:
         if guard:
